@@ -48,6 +48,17 @@ def specs(tier):
                                     lv2[-1].update({"inv": len(inv_on), "inv_on": inv_on})
                                     out.append({"kind": kind, "is_async": is_async, "dbc": dbc, "levels": lv2, "style": "def", "err": "cls",
                                                 "foreign": None, "layout": "grouped"})
+                            if dbc and base and base[0] is not None and (pre, post, snap) == (1, 0, 0) and kind in ("method", "call"):
+                                # invariants checked on ALL events (CALL | SETATTR), declared in a base and inherited through the meta-class,
+                                # alone and next to a CALL-only one; also declared on the leaf class
+                                for where, inv_on in (("base", "A"), ("base", "AC"), ("base", "CA"), ("leaf", "A"), ("both", "A")):
+                                    lv2 = [dict(l) for l in levels]
+                                    if where in ("base", "both"):
+                                        lv2[0].update({"inv": len(inv_on), "inv_on": inv_on})
+                                    if where in ("leaf", "both"):
+                                        lv2[-1].update({"inv": len(inv_on), "inv_on": inv_on})
+                                    out.append({"kind": kind, "is_async": is_async, "dbc": dbc, "levels": lv2, "style": "def", "err": "cls",
+                                                "foreign": None, "layout": "grouped"})
                             for foreign in (None, "top", "mid", "bottom"):
                                 if foreign and (inv or (tier == "quick" and (pre, post, snap) not in ((1, 1, 1), (2, 1, 0)))):
                                     continue
